@@ -278,11 +278,6 @@ def _graham(rc: RuleCtx):
     ev.no_inline.add("convex_hull._sort_points")
     pts = ev.point("points", True)
     ev.len_map = {"points": sym("n"), "stack": sym("S")}
-    fors = [st for st in fi.node.body if isinstance(st, ast.For)]
-    if len(fors) != 1:
-        raise AnalysisError("graham_scan: expected one scan loop")
-    loop = fors[0]
-    w = _popping_while(fi, loop)
     # sorted_points comes from _sort_points(points)
     srt = [st for st in fi.node.body if isinstance(st, ast.Assign) and isinstance(st.value, ast.Call) and ast.unparse(st.value) == "_sort_points(points)"]
     if len(srt) == 1 and isinstance(srt[0].targets[0], ast.Name):
@@ -291,6 +286,23 @@ def _graham(rc: RuleCtx):
     else:
         res.violation("H5", mod, fi.name, fi.node, "the scan does not run over _sort_points(points)", "", "sorted_points = _sort_points(points)", construct="graham sort")
         return
+    fors = [st for st in fi.node.body if isinstance(st, ast.For)]
+    if not fors:
+        # the scan itself may live in a private helper that is handed the sorted points
+        for st in fi.node.body:
+            if isinstance(st, ast.Assign) and isinstance(st.value, ast.Call) and isinstance(st.value.func, ast.Name) and len(st.value.args) == 1 \
+                    and isinstance(st.value.args[0], ast.Name) and st.value.args[0].id == spname and not st.value.keywords:
+                r_ = rc.lk.resolve(mod, st.value.func)
+                if r_.kind == "func" and r_.obj.module is mod and len(r_.obj.signature.positional) == 1:
+                    helper = r_.obj
+                    hf = [x for x in helper.node.body if isinstance(x, ast.For)]
+                    if len(hf) == 1:
+                        fi, fors, spname = helper, hf, helper.signature.positional[0]
+                        break
+    if len(fors) != 1:
+        raise AnalysisError("graham_scan: expected one scan loop")
+    loop = fors[0]
+    w = _popping_while(fi, loop)
     sp = ev.point("sp", True)
     ev.len_map["sp"] = sym("m")
     # the hull stack: the list popped inside the popping loop
@@ -392,8 +404,18 @@ def _graham(rc: RuleCtx):
     piv = False
     for c in mins:
         key = [kw.value for kw in c.keywords if kw.arg == "key"]
-        if key and isinstance(key[0], ast.Lambda) and len(key[0].args.args) == 1:
-            body = ast.unparse(key[0].body).replace(" ", "").replace(key[0].args.args[0].arg + "[", "p[")
+        kfn = key[0] if key else None
+        if isinstance(kfn, ast.Name):
+            # a named key function: a nested def with a single return, or a lambda bound to that name
+            kname = kfn.id
+            for n_ in ast.walk(fs.node):
+                if isinstance(n_, ast.FunctionDef) and n_.name == kname and len(n_.args.args) == 1 and len(n_.body) >= 1 and isinstance(n_.body[-1], ast.Return) \
+                        and all(isinstance(b_, ast.Expr) and isinstance(b_.value, ast.Constant) for b_ in n_.body[:-1]):
+                    kfn = ast.Lambda(args=n_.args, body=n_.body[-1].value)
+                elif isinstance(n_, ast.Assign) and any(isinstance(t_, ast.Name) and t_.id == kname for t_ in n_.targets) and isinstance(n_.value, ast.Lambda):
+                    kfn = n_.value
+        if isinstance(kfn, ast.Lambda) and len(kfn.args.args) == 1:
+            body = ast.unparse(kfn.body).replace(" ", "").replace(kfn.args.args[0].arg + "[", "p[")
             if body in ("(p[0],p[1])", "[p[0],p[1]]"):
                 piv = True
     if piv:
